@@ -37,9 +37,3 @@ Proof.
   apply andb_true_iff in Hb as [Hb H4]. apply andb_true_iff in Hb as [Hb H3]. apply andb_true_iff in Hb as [H1 H2].
   exists s. split; [exact Hs|]. repeat split; try (apply text_eqb_eq; assumption). apply Z.eqb_eq. exact H4.
 Qed.
-
-(* the modelled sites are really present (the model is not about code that no longer exists) *)
-Lemma modelled_sites_present_b :
-  forallb (fun m => existsb (fun s => (s_class s =? 0) && text_eqb (s_fn s) (fst m) && text_eqb (s_iter s) (snd m)) sites)
-          modelled_sites = true.
-Proof. vm_compute. reflexivity. Qed.
